@@ -718,7 +718,7 @@ def gen_specs(rng: random.Random, tier: str, n: int) -> list[dict]:
                     picks.append(list(picks[-1]))  # and an exact duplicate
             ops.append(["ring", g, picks])
             ops.append(["filter", -1, rng.choice([{"name": "remove_duplicates_fast", "args": [], "kwargs": {}}, {"name": "remove_duplicates", "args": [0, 0], "kwargs": {}}, {"name": "remove_duplicates", "args": [], "kwargs": {}}])])
-        for _ in range(rng.randint(3, 9)):
+        for _ in range(rng.randint(30, 50) if rng.random() < 0.03 else rng.randint(3, 9)):  # a few long histories
             r = rng.random()
             if r < 0.12 and ops[-1][0] == "filter" and ops[-1][2]["name"] != "collect_generation_meta":
                 # the same filter with the same arguments again, on the result of the previous application
